@@ -395,6 +395,27 @@ def run(shard, rec, tier, seed):
             if bytes(e) != ref.encode(n) or d != n:
                 rec.violation("differential-encode", "by keyword: encode_number(number=%d) = %s (reference %s), decoded %r" % (n, bytes(e).hex(), ref.encode(n).hex(), d), {"n": n})
         rec.count("keyword-calls", 20)
+        # numbers that are not plain ints: bool, an int subclass, IntEnum members (what callers pass for enum fields)
+        import enum
+
+        class _MyInt(int):
+            pass
+
+        class _Level(enum.IntEnum):
+            Player = 0
+            Guide = 1
+            Admin = 252
+            Big = 64008
+        for v in [True, False, _MyInt(0), _MyInt(253), _MyInt(70000), _MyInt(B4 - 1)] + list(_Level):
+            n = int(v)
+            try:
+                e = ns.numbers.encode_number(v)
+            except Exception as ex:
+                rec.violation("encode-raises", "encode_number(%r) [a %s equal to %d] raised %r" % (v, type(v).__name__, n, ex), {"n": n, "type": type(v).__name__})
+                continue
+            if bytes(e) != ref.encode(n):
+                rec.violation("differential-encode", "encode_number(%r) = %s, reference for %d is %s" % (v, bytes(e).hex(), n, ref.encode(n).hex()), {"n": n, "type": type(v).__name__})
+        rec.count("int-like-arguments", 10)
         for n in list(range(0, shard["hi"])) + [B3 - 1, B3, B3 + 1, B4 - 1, B4 - B, 12345678, 2048576040]:
             mon.check_n(n)
         cnt = shard["hi"] + 7
